@@ -28,6 +28,11 @@ thread_local! {
 }
 
 thread_local! {
+    /// `max_file_size` of the database instance running on this thread (the flush-level model needs it)
+    static MAX_FILE_SIZE: std::cell::Cell<u64> = const { std::cell::Cell::new(0) };
+}
+
+thread_local! {
     /// seek-charge tracker of the history running on this thread (see `seekcheck.rs`)
     static SEEK: std::cell::RefCell<crate::seekcheck::SeekTracker> = std::cell::RefCell::new(crate::seekcheck::SeekTracker::default());
 }
@@ -337,6 +342,8 @@ pub struct Stats {
     pub seek_budgets_checked: u64,
     pub seek_compactions_recorded: u64,
     pub seek_compactions_by_model: u64,
+    pub flush_levels_checked: u64,
+    pub flushes_below_level0: u64,
 }
 
 pub struct RunOut {
@@ -453,12 +460,38 @@ pub fn validate_events(drv: &mut crate::drv::Drv, events: &[Event], obs: &mut Ve
         }
         let mut request = String::new();
         let (levels_before, answer, kind): (&Vec<Vec<raindb::verif::FileDump>>, String, &str) = match ev {
-            Event::Flush { file, level, size, levels_before, entries } => {
+            Event::Flush { file, level, size, levels_before, entries, during_table_compaction } => {
                 if *size == 0 {
                     continue;
                 }
                 request = format!("lsm.flush 0 {} {} {} {}", levels_tok(levels_before, &BTreeMap::new()), file, level, ents_tok(entries));
                 let a = drv.ask(&request);
+                // the level itself: the model of pick_level_for_memtable_output on the version the
+                // flush was based on (a flush inside a table compaction stays at level 0)
+                if let (Some(first), Some(last)) = (entries.first(), entries.last()) {
+                    let want = if *during_table_compaction {
+                        "0".to_string()
+                    } else {
+                        let sizes: Vec<String> = levels_before.iter().flatten().map(|f| format!("{}={}", f.number, f.size)).collect();
+                        drv.ask(&format!(
+                            "flush.level {} {} {} {}/{}",
+                            MAX_FILE_SIZE.with(|m| m.get()),
+                            levels_tok(levels_before, &BTreeMap::new()),
+                            if sizes.is_empty() { "_".to_string() } else { sizes.join(",") },
+                            hex(&first.0),
+                            hex(&last.0)
+                        ))
+                    };
+                    if want != "no-model" {
+                        stats.flush_levels_checked += 1;
+                        if *level > 0 {
+                            stats.flushes_below_level0 += 1;
+                        }
+                        if want != level.to_string() {
+                            obs.push(Obs { sig: "c07:flush-level-outside-the-verified-model".into(), what: format!("flush level: table {file} (user keys {} .. {}) was placed at level {level}{}, the model of pick_level_for_memtable_output on the version it was based on ({:?}) gives {want}", hex(&first.0), hex(&last.0), if *during_table_compaction { " from inside a table compaction" } else { "" }, brief(levels_before)), at });
+                        }
+                    }
+                }
                 (levels_before, a, "flush")
             }
             Event::TrivialMove { file, level, levels_before } => {
@@ -837,6 +870,7 @@ pub fn run_history(h: &History, checks: &Checks, fs: &SimFs) -> RunOut {
     SEEK.with(|t| t.borrow_mut().reset_all());
     TABLE_SIZES.with(|f| *f.borrow_mut() = Some(fs.clone()));
     sched_reset();
+    MAX_FILE_SIZE.with(|m| m.set(cfg.file));
     let mut db: Option<DB> = match DB::open(cfg.options(fs)) {
         Ok(d) => Some(d),
         Err(e) => {
@@ -1374,6 +1408,7 @@ pub fn run_history(h: &History, checks: &Checks, fs: &SimFs) -> RunOut {
                     });
                 }
                 cfg = newcfg.clone();
+                MAX_FILE_SIZE.with(|m| m.set(cfg.file));
                 stats.reopens += 1;
                 chain = None; // recovery builds tables without recorded transitions
                 match DB::open(cfg.options(fs)) {
